@@ -5,8 +5,10 @@ P: RG.Engine.CommentSpec models runCommentRules + handleCommentMatch with the re
    rule (load order) that matches and accepts is the one that reports; the reported span is offset-of-comment + match
    indices, lies inside the comment, the bytes there are the matched text, Suggest replaces exactly that span; a named
    group is bound by regexp group index to its submatch text ("" when it did not participate). The theorems are
-   instantiated with nodeText's in-range test regenerated from /repo (shared with C03) on every run.
-K: the Coq model is executed on every generated comment with the indices Go's regexp returned on comment.Text and
+   instantiated with nodeText's in-range test regenerated from /repo (shared with C03) on every run, and runCommentRules
+   itself is translated from runner.go statement by statement (go2coq c12loop) and proved on every run to BE that model
+   (C12_translated_loop_is_model), for every base of the file in the FileSet.
+K: the Coq model (the translated runCommentRules) is executed on every generated comment with the indices Go's regexp returned on comment.Text and
    compared with the observed ReportData (byte ranges, message, suggestion, line).
 O: expected reports are computed independently from the comment's SOURCE bytes (regexp.FindSubmatchIndex on the file
    bytes at the comment's offset known by construction, independent of comment.Text) and compared with the observation.
@@ -26,7 +28,7 @@ def b64(x):
 
 
 def run(c):
-    c.go2coq_sources = ["c03.go", "textmatch.go", "c12.go"]   # private translator build: another family's generator cannot break this check
+    c.go2coq_sources = ["c03.go", "textmatch.go", "c12.go", "c03loop.go", "c12loop.go"]   # private translator build: another family's generator cannot break this check
     thorough = c.tier == "thorough"
     c.rule = ("14 fixed MatchComment rules (named, unnamed-in-front, optional, nested, alternative (non-participating) groups, no groups "
               "= fast path, multi-byte, (?s) multi-line, Where filters, At(), Suggest, two alternatives) plus seeded random rules inserted at "
@@ -36,9 +38,11 @@ def run(c):
     c.trusted += [
         "Go regexp as an oracle: leftmost match and submatch indices (FindStringSubmatchIndex), SubexpNames -- inputs of the model",
         "go/parser + go/scanner deliver comment.Text and positions (the scanner strips \\r: see the known finding)",
-        "hand model of runCommentRules / handleCommentMatch (CommentSpec.run_comment_rules) -- tied by correspondence on every run and by "
-        "the statement facts regenerated for C03 (handleCommentMatch wiring)",
-        "go2coq c03extras (nodeText in-range test); harness/cmd/c12 and hook VerifRegexpHasCaptureGroups (build tag verif)",
+        "go2coq c12loop: the statement-level Go->Gallina translator of runCommentRules (its reading of Go: let for :=, nested range loops "
+        "with break/continue over explicit loop states, partial indexing/slicing in the outcome monad, token.File.Pos/Offset as base + "
+        "offset, the composite literals as abstract constructors); handleCommentMatch is modelled by hand (CommentSpec.handle / "
+        "mk_creport) -- tied by correspondence on every run and by the statement facts regenerated for C03 and C12",
+        "go2coq c03extras (nodeText in-range test), c12facts; harness/cmd/c12 and hook VerifRegexpHasCaptureGroups (build tag verif)",
     ]
     c.notes += ["filters in the correspondence are of the form m[name].Text == literal; other predicates on comment captures go through nodeText the same way",
                 "regexpHasCaptureGroups itself is verified in C11 (has_capture_correct); here only its use (path choice) is modelled"]
@@ -55,9 +59,20 @@ def run(c):
     if c.go2coq("c12facts", "Gen_C12.v"):
         if c.coq_compile(["Gen_C12.v"]):
             gen12_ok = True
+    # runCommentRules, translated statement by statement; the executed model uses it when it translates
+    loop_ok = False
+    if c.go2coq("c12loop", "Gen_C12Loop.v"):
+        if c.coq_compile(["Gen_C12Loop.v"]):
+            c.install_tmpl("C12/Def_CommentLoop.v")
+            loop_ok = c.coq_compile(["Def_CommentLoop.v"])    # definitions only: the executed model
     if gen_ok and gen12_ok:
-        c.install_tmpl("C03/Inst_Render.v", "C12/Inst_Comment.v", "C12/C12.v")
-        c.coq_compile(["Inst_Render.v", "Inst_Comment.v", "C12.v"])
+        c.install_tmpl("C03/Inst_Render.v", "C12/Inst_Comment.v", "C12/Inst_CommentLoop.v", "C12/C12.v")
+        c.coq_compile(["Inst_Render.v", "Inst_Comment.v"])
+        if loop_ok:
+            c.coq_compile(["Inst_CommentLoop.v", "C12.v"])
+        else:
+            c.obligation("coq:Inst_CommentLoop.v", False, "not compiled: runCommentRules did not translate")
+            c.obligation("coq:C12.v", False, "not compiled: a file it depends on failed")
     # the executed model declares the loop's match data where the source does (read off by go2coq); without a readable
     # source it falls back to the specified behaviour
     fresh = "gen_c12_match_data_fresh" if gen12_ok else "true"
@@ -208,6 +223,7 @@ def run(c):
             "From RG.Base Require Import Outcome GoInt GoSlice.",
             "From RG.Engine Require Import TruncateSpec RenderSpec CommentSpec.",
             ("From RGW Require Import Gen_C12." if gen12_ok else ""),
+            ("From RG.Engine Require Import RenderLoop CommentLoop.\nFrom RGW Require Import Gen_C12Loop Def_CommentLoop." if loop_ok else ""),
             "From RGW Require Import Gen_C03." if gen_ok else
             "Definition nodeTextInRange (from to : Z) (src : bytes) : outcome bool := Ok ((0 <=? from)%Z && (from <? len src)%Z && ((0 <=? to)%Z && (to <=? len src)%Z)).",
             "Import ListNotations. Local Open Scope Z_scope.",
@@ -216,6 +232,7 @@ def run(c):
                       for k in range(0, max(len(x), 1), 4000)),
             "Definition srcs : list bytes := [%s]." % ";\n".join(
                 "(" + " ++ ".join("src_%d_%d" % (fi, k // 4000) for k in range(0, max(len(x), 1), 4000)) + ")" for fi, x in enumerate(srcs)),
+            "Definition bases : list Z := [%s]." % ";".join(str(b) for b in finfo["bases"]),
             "Definition rules : list crule := [%s]." % ";\n".join(coq_rule(r) for r in rules),
             "Definition rep_eqb (m : option mreport) (o : option (Z * Z * bytes * bool * Z * Z * bytes * Z)) : bool :=",
             "  match m, o with None, None => true | Some r, Some (pos, en, msg, hs, sf, st, sg, ln) =>",
@@ -231,9 +248,16 @@ def run(c):
                                                                           ";".join(coq_idx(ix) for ix in o["idx"]), coq_mt(o.get("mt")),
                                                                           coq_obs(o.get("obs"))) for i, o in items))
             s.append("].")
+            # the executed model: runCommentRules as translated from the source (file base from the FileSet), else the hand model
+            # with the declaration site of the match data read off the source
+            if loop_ok:
+                model = ("match gen_run_comment_rules nodeTextInRange (table_oracle mt) l (nth f srcs []) off text (nth f bases 0) (combine rules idxs) [] with "
+                         "Ok [] => negb (rep_eqb None ob) | Ok [r] => negb (rep_eqb (Some r) ob) | Ok _ => true | Panic _ => true end")
+            else:
+                model = ("match run_loop nodeTextInRange (table_oracle mt) l (nth f srcs []) off text %s md_zero (combine rules idxs) with "
+                         "Ok r => negb (rep_eqb r ob) | Panic _ => true end" % fresh)
             s.append("Definition bad := map (fun c => match c with (i, _, _, _, _, _, _, _) => i end) (filter (fun c => match c with (i, l, f, off, text, idxs, mt, ob) => "
-                     "match run_loop nodeTextInRange (table_oracle mt) l (nth f srcs []) off text %s md_zero (combine rules idxs) with "
-                     "Ok r => negb (rep_eqb r ob) | Panic _ => true end end) cases)." % fresh)
+                     "%s end) cases)." % model)
             s.append("Definition RES := Eval vm_compute in (bad, List.length cases).")
             s.append("Print RES.")
             return "\n".join(s)
